@@ -2,12 +2,13 @@
 PROP = {
     "title": "Encoders are deterministic and all their variants agree",
     "run_modules": ["RunC16"],
+    "gen": ["setters", "pure"],
     "n": {"quick": 800, "thorough": 8000},
     "shards": {"quick": 16, "thorough": 64},
     "level": "proof",
     "technique": "Coq proof that the Map encoder model is invariant under every permutation of every entry list (= every Go hash-iteration order), "
                  "that its output is ordered (attributes strictly ascending, sibling elements ascending, at every depth) and that the indented root rule "
-                 "agrees with the compact one except on one stated shape; model of Map.Json/JsonIndent on top of encoding/json's Encoder and Indent, of the Writer forms and of the Maps string/file forms (concatenation theorems; refutation "
+                 "agrees with the compact one except on one stated shape; model of Map.Json/JsonIndent on top of encoding/json's Encoder and Indent, of the Writer forms and of the Maps string/file forms (concatenation theorems; the four Maps string functions of files.go re-translated by go2v on every run and proved equal to the model loop, C16_maps_*_code_is_model; refutation "
                  "witness for JsonStringIndent's newline separator); model/implementation correspondence by vm_compute on Maps rebuilt with other insertion orders and "
                  "capacities; byte-level Go-side oracle over all 24 encoder entry points",
     "design_ref": "DESIGN.md section 3 (Go maps are association lists), section 6 C16, section 10",
